@@ -136,6 +136,7 @@ class RecordRun:
         self.desync = False
         self.consumer_done = "-"
         self.consumer_bytes = 0
+        self.async_close = False
         self.schedule = []
         self.internal = []
         self.held = b""          # bytes of earlier frames held back for the "coalesce" chunking
@@ -295,11 +296,17 @@ class RecordRun:
             if not c:
                 continue
             t = self.dst.transport
-            if not t.connected or t.disconnecting:
+            # a transport whose close is asynchronous (TLS, a wrapping transport, a test transport) still hands over
+            # what arrives between loseConnection() and connectionLost(); plain TCP stops reading at once
+            if not t.connected or (t.disconnecting and not self.async_close):
                 break
             try:
                 reactor.call_protocol(self.dst.dataReceived, c)
             except sim._ProtocolRaised:
+                if self.async_close:
+                    # such a transport does not tear the connection down because dataReceived raised either: whether
+                    # anything more is accepted is up to the protocol (it must have hung up by itself)
+                    continue
                 self._receiver_dropped()
                 break
 
@@ -321,11 +328,12 @@ class RecordRun:
     def finish(self):
         # whatever was held back for coalescing is flushed (it was sent; only its timing was the adversary's)
         if self.held:
-            if self.dst.transport.connected and not self.dst.transport.disconnecting:
+            if self.dst.transport.connected and (self.async_close or not self.dst.transport.disconnecting):
                 try:
                     reactor.call_protocol(self.dst.dataReceived, self.held)
                 except sim._ProtocolRaised:
-                    self._receiver_dropped()
+                    if not self.async_close:
+                        self._receiver_dropped()
             self.held = b""
         self._collect()
         state = self.dst.state
@@ -436,6 +444,7 @@ def run_c06(prop, tier):
                 tid += 1
                 sizes = rng.choice(SIZE_PROFILES[:2] if chunking == "bytes" else SIZE_PROFILES)
                 run = RecordRun(tid, direction, chunking, cm, random.Random(seed * 7919 + tid), sizes)
+                run.async_close = (tid % 3 == 0)
                 if cm:
                     run.attach_consumer(nrec)
                 try:
@@ -476,7 +485,7 @@ def run_c06(prop, tier):
                 v.violation({"clause": bad[0], "manipulation": manip[0] if manip else "none", "mode": "consumer" if rec["consumer"] else "queue"},
                             "%s fails on a real Transit connection (%s, chunking %s): %s" % (",".join(bad), rec["direction"], rec["chunking"],
                                                                                              json.dumps({k: rec[k] for k in ("sent", "got", "atTamper", "state", "pendingReads", "consumerDone")})),
-                            {"schedule": run.schedule, "direction": rec["direction"], "chunking": rec["chunking"], "sizes": run.sizes,
+                            {"schedule": run.schedule, "direction": rec["direction"], "chunking": rec["chunking"], "sizes": run.sizes, "async_close": run.async_close,
                              "consumer": rec["consumer"], "observation": rec})
         cov.update(states=states, transitions=transitions, traces_validated_against_impl=len(records), evaluations=len(records),
                    distinct_nontrivial=len(nontrivial), failing_runs=failing,
@@ -506,6 +515,7 @@ def replay(prop, path):
         from . import transit_select
         return transit_select.replay(prop, path)
     run_ = RecordRun(1, d["direction"], d["chunking"], d["consumer"], random.Random(1), d["sizes"])
+    run_.async_close = bool(d.get("async_close"))
     if d["consumer"]:
         run_.attach_consumer(4)
     for a in d["schedule"]:
